@@ -1548,6 +1548,14 @@ class Interp:
         fr.si = 0
         n = fr.visits.get(b, 0) + 1
         fr.visits[b] = n
+        if n == 2:
+            # second entry of a block in one activation: the block heads a loop that this path iterates. Recorded so that the
+            # termination rule can tell loops the exhaustive exploration went round (and came out of) from loops it never entered
+            k = "%s||loop:bb%d|" % (fr.fn["path"], b)
+            o = self.obligations.get(k)
+            if o is None:
+                self.obligations[k] = o = {"visits": 0, "failed": 0, "detail": None, "fn": fr.fn["path"]}
+            o["visits"] += 1
         if n >= 2 and self.opts.get("loop_subsume"):
             # path-sensitive exploration with subsumption: a path that comes back to a block in a state (frames, reachable heap, path
             # condition) in which the block was already entered continues exactly as that earlier visit did - nothing new to explore
